@@ -34,7 +34,7 @@ ASSUMPTIONS = [
     "for REQs with several filters only events matching exactly one filter are attributed (conservative)",
 ]
 MIN_NONTRIVIAL = {"quick": 300, "thorough": 3000}
-REQUIRED_COUNTERS = ["reqs_truncating", "cap_checks", "recency_checks", "post_dated_events", "filters_with_empty_condition", "purple_imported_before_config"]
+REQUIRED_COUNTERS = ["reqs_truncating", "cap_checks", "recency_checks", "post_dated_events", "filters_with_empty_condition", "purple_imported_before_config", "default_cap_reqs"]
 SHARD_TIMEOUT = {"quick": 500, "thorough": 3000}
 
 
@@ -48,6 +48,7 @@ def plan(tier, seed):
                                "stores": stores, "reqs": reqs})
     for backend in ("sql", "lmdb"):
         shards.append({"backend": backend, "max_limit": 7, "case_seed": seed * 100003 + 77, "stores": 1, "reqs": 60, "purple_first": True})
+        shards.append({"backend": backend, "max_limit": "default", "mode": "default-cap", "case_seed": seed})
     return shards
 
 
@@ -220,6 +221,42 @@ async def run_store(backend, cap, store_seed, nreqs, counters, coverage, explici
     return viols, nontrivial, samples
 
 
+async def run_default_cap(backend, counters, seed):
+    """no max_limit in the configuration file: the documented default (6000) is the cap, also for limits above it"""
+    rig = R.Rig(backend=backend, config={"analysis_delay": 0})
+    await rig.start()
+    viols, nontrivial = [], []
+    try:
+        from nostr_relay.config import Config
+
+        cap = Config.max_limit
+        key = ref.key_from_seed("c12-default-cap")
+        conn = rig.connect("bulk")
+        n = cap + 100
+        for i in range(n):
+            conn.feed(["EVENT", ref.make_event(key, kind=1, created_at=gen.T0 + i, content="b%d %d" % (i, seed))])
+            if i % 500 == 499:
+                await conn.processed(timeout=300)
+        await conn.processed(timeout=300)
+        await rig.quiesce(timeout=300)
+        for lim in (cap + 1, cap + 1000, None, 2 ** 31, "absent"):
+            f = {"kinds": [1]}
+            if lim != "absent":
+                f["limit"] = lim
+            ans = await qcore.run_req(rig, conn, [f], timeout=120)
+            counters["cap_checks"] = counters.get("cap_checks", 0) + 1
+            counters["default_cap_reqs"] = counters.get("default_cap_reqs", 0) + 1
+            counters["reqs"] = counters.get("reqs", 0) + 1
+            nontrivial.append(h([backend, "default-cap", repr(lim)]))
+            if ans["eose"] and len(ans["events"]) > cap:
+                viols.append({"key": "%s/cap/default-max_limit/limit-%s" % (backend, "absent" if lim == "absent" else ("null" if lim is None else ">cap")),
+                              "msg": "[%s] no max_limit configured (default %d), %d matching events stored: REQ %s was sent %d events" % (backend, cap, n, json.dumps(f), len(ans["events"])),
+                              "replay": {"backend": backend, "mode": "default-cap", "seed": seed}})
+    finally:
+        await rig.close()
+    return viols, nontrivial
+
+
 def _dedup(viols, cap=2):
     seen, out = {}, []
     for v in viols:
@@ -233,6 +270,9 @@ def _dedup(viols, cap=2):
 def run_shard(spec):
     counters, coverage = {}, {"backends": {spec["backend"]: 1}, "max_limits": {str(spec["max_limit"]): 1}}
     viols, nontrivial, samples = [], [], []
+    if spec.get("mode") == "default-cap":
+        viols, nontrivial = R.run(run_default_cap, spec["backend"], counters, spec["case_seed"])
+        return {"evaluations": counters.get("reqs", 0), "nontrivial": sorted(set(nontrivial)), "counters": counters, "coverage": coverage, "violations": viols[:3], "samples": [], "inconclusive": []}
     for s in range(spec["stores"]):
         v, nt, sm = R.run(run_store, spec["backend"], spec["max_limit"], spec["case_seed"] * 31 + s, spec["reqs"], counters, coverage, None, bool(spec.get("purple_first")))
         if spec.get("purple_first"):
@@ -250,6 +290,9 @@ def run_shard(spec):
 
 def replay(rp, spec):
     counters, coverage = {}, {}
+    if rp.get("mode") == "default-cap":
+        v, nt = R.run(run_default_cap, rp["backend"], counters, rp["seed"])
+        return {"evaluations": 1, "nontrivial": nt, "counters": counters, "coverage": coverage, "violations": v, "samples": [], "inconclusive": []}
     v, nt, sm = R.run(run_store, rp["backend"], rp["max_limit"], 0, 0, counters, coverage, rp, bool(rp.get("purple_first")))
     v, seen = _dedup(v, cap=50)
     return {"evaluations": 1, "nontrivial": nt, "counters": counters, "coverage": coverage, "violations": v,
